@@ -42,9 +42,39 @@ PROPS = {
                 "accepted lengths the unpacked tweakey is REQUIRED to equal key bytes followed by zeros (loop invariants of set_tk2/3).",
         "assumptions": [COMPOSE],
     },
-    "C14": {
-        "claimed": False,
-        "reason": "under construction",
+    "C13": {
+        "claimed": True,
+        "technique": "CBMC function contracts against an assumed CPUID/XGETBV model (nondeterministic sub-leaf for __cpuid)",
+        "text": "_skinny_has_vec128/256 return exactly the model's 'instruction set present and enabled by the OS' predicate for every "
+                "modelled CPU and every content of the unspecified ECX; the six init functions select the widest back end the probes "
+                "offer and set parallel_size to match; the probes are replaced there by 'returns this constant', i.e. the selection is "
+                "a function of the machine only.",
+        "assumptions": [COMPOSE, "CPUID/XGETBV model transcribed from the Intel SDM (assumed contract of the hardware); inline asm is not "
+                        "interpreted by CBMC; ARM/NEON branch not compiled on this host"],
+    },
+    "C15": {
+        "claimed": True,
+        "technique": "CBMC function contracts over the object state machine {inert, live}, heap model with frees/was_freed",
+        "text": "per operation transition contracts for every CTR back end (generic + 4 SIMD), the public CTR wrappers and the three "
+                "parallel-ECB objects: init -> live with exactly one allocator block; cleanup of live: wiped, freed exactly once, inert; "
+                "cleanup of NULL/zeroed/cleaned objects: empty frame; every other call on an inert object returns 0 with empty frame.",
+        "assumptions": [COMPOSE, "closure over all interleavings of operations is induction over the per-operation contracts (meta)",
+                        "SIMD cleanup proved for the allocation layout 'aligned pointer == block base'"],
+    },
+    "C16": {
+        "claimed": True,
+        "technique": "CBMC function contracts with a failing allocator (--malloc-may-fail --malloc-fail-null)",
+        "text": "every init function: on allocation failure returns 0, allocates nothing and leaves the handle inert (ctx == NULL) for "
+                "ARBITRARY prior contents of the caller's object; inert objects are covered by C15's contracts.",
+        "assumptions": [COMPOSE],
+    },
+    "C17": {
+        "claimed": True,
+        "technique": "CBMC function contracts; free() redirected to a checker that asserts the context is all-zero when released",
+        "text": "every cleanup function: for an arbitrary witness byte of the context, that byte is zero at the moment free() is called "
+                "(skinny_cleanse's own loop contract: every byte of [ptr, ptr+size) zero, nothing else written).",
+        "assumptions": [COMPOSE, "the +31 alignment slack of SIMD contexts never holds state (calloc-zero, never written)",
+                        "compiler may not elide the volatile stores (C semantics of volatile; not checked on machine code)"],
     },
 }
 
